@@ -30,6 +30,9 @@ def get_plan(name, tier='thorough'):
         for p in zoo.zoo(t):
             if p.name == name:
                 return p
+    for p in zoo.ambiguous():
+        if p.name == name:
+            return p
     raise KeyError(name)
 
 
